@@ -224,7 +224,10 @@ def _check_save_and_read(ser):
         "else:\n    try:\n        encoded = encoding_fn(value)\n    except Exception as e:\n        encoded = value",
         "d[name] = encoded",
     ]
-    if lb[:2] != ["name = f.name", "value = getattr(dc, name)"] or lb[-3:] != want_tail:
+    want_head = ["name = f.name", "value = getattr(dc, name)", "include_in_dict = f.metadata.get('to_dict', True)",
+                 "if not include_in_dict:\n    continue", "custom_encoding_fn = f.metadata.get('encoding_fn')",
+                 "if custom_encoding_fn:\n    d[name] = custom_encoding_fn(value)\n    continue"]
+    if lb != want_head + want_tail:
         raise Unrecognised(f"to_dict: per-field body changed: {lb}")
     if unparse(clean(td.body)[-1]) != "return d":
         raise Unrecognised("to_dict: does not end with `return d`")
